@@ -17,7 +17,8 @@ def sgn(direction):
 
 # ---- case generators: (shape, logical args, expectation) ------------------
 
-def arc_case(start, direction, radius, sweep_deg, dz, phi_deg):
+def arc_case(start, direction, radius, sweep_deg, dz, phi_deg, cz=None):
+    """cz: optional third component of the centre argument (the arc lies in XY: it must not matter)."""
     phi = math.radians(phi_deg)
     center = (radius * math.cos(phi), radius * math.sin(phi))
     c = (start[0] + center[0], start[1] + center[1])
@@ -30,7 +31,7 @@ def arc_case(start, direction, radius, sweep_deg, dz, phi_deg):
     target = list(txy) if dz is None else [txy[0], txy[1], start[2] + dz]
     exp = {"kind": "circular", "c": c, "r0": radius, "r1": radius, "a0": a0, "total": total, "z0": start[2],
            "height": 0.0 if dz is None else dz, "end": (txy[0], txy[1], start[2] + (dz or 0.0))}
-    return "arc", {"target": target, "center": list(center)}, exp
+    return "arc", {"target": target, "center": list(center) + ([cz] if cz is not None else [])}, exp
 
 
 def arc_radius_case(start, direction, radius, chord_ratio, ang_deg):
@@ -48,17 +49,17 @@ def arc_radius_case(start, direction, radius, chord_ratio, ang_deg):
     return "arc_radius", {"target": list(txy), "radius": float(radius)}, exp
 
 
-def circle_case(start, direction, radius, phi_deg):
+def circle_case(start, direction, radius, phi_deg, cz=None):
     phi = math.radians(phi_deg)
     center = (radius * math.cos(phi), radius * math.sin(phi))
     c = (start[0] + center[0], start[1] + center[1])
     a0 = math.atan2(start[1] - c[1], start[0] - c[0])
     exp = {"kind": "circular", "c": c, "r0": radius, "r1": radius, "a0": a0, "total": sgn(direction) * TWO_PI,
            "z0": start[2], "height": 0.0, "end": start}
-    return "circle", {"center": list(center)}, exp
+    return "circle", {"center": list(center) + ([cz] if cz is not None else [])}, exp
 
 
-def helix_case(start, direction, r0, ratio, turns, extra_deg, dz, phi_deg):
+def helix_case(start, direction, r0, ratio, turns, extra_deg, dz, phi_deg, cz=None):
     phi = math.radians(phi_deg)
     center = (r0 * math.cos(phi), r0 * math.sin(phi))
     c = (start[0] + center[0], start[1] + center[1])
@@ -73,7 +74,7 @@ def helix_case(start, direction, r0, ratio, turns, extra_deg, dz, phi_deg):
     target = list(txy) if dz is None else [txy[0], txy[1], start[2] + dz]
     exp = {"kind": "circular", "c": c, "r0": r0, "r1": r1, "a0": a0, "total": total, "z0": start[2],
            "height": 0.0 if dz is None else dz, "end": (txy[0], txy[1], start[2] + (dz or 0.0)), "turns": turns}
-    return "helix", {"target": target, "center": list(center), "turns": turns}, exp
+    return "helix", {"target": target, "center": list(center) + ([cz] if cz is not None else []), "turns": turns}, exp
 
 
 def thread_case(start, direction, diameter, ang_deg, dz, pitch):
@@ -302,6 +303,12 @@ def grid(tier):
                 for sign in (1, -1):
                     out.append((res, lambda s, d, radius=radius, ratio=ratio, sign=sign: arc_radius_case(s, d, sign * radius, ratio, 30)))
             out.append((res, lambda s, d, radius=radius: circle_case(s, d, radius, 60)))
+            # centre given with a third component (the shapes lie in XY; the documented curve does not depend on it)
+            out.append((res, lambda s, d, radius=radius: circle_case(s, d, radius, 60, cz=2.5)))
+            out.append((res, lambda s, d, radius=radius: arc_case(s, d, radius, 90, 5.0, 0, cz=-1.5)))
+            out.append((res, lambda s, d, radius=radius: arc_case(s, d, radius, 270, None, 135, cz=2.5)))
+            if radius <= 50:
+                out.append((res, lambda s, d, radius=radius: helix_case(s, d, radius, 0.5, 2, 90, 5.0, 200, cz=1.0)))
             for turns in (1, 3):
                 for ratio in (1.0, 0.5, 2.0):
                     for extra in ((90, 360) if not thorough else (45, 90, 360)):
